@@ -1157,10 +1157,10 @@ const FRAGMENTS: [(&str, &str); 62] = [
     ("dirwrite", "alias >d2; s=$?; typeset -p s; alias >>d1; s=$?; typeset -p s"),
     ("dotdot", "alias >d1/../up%; s=$?; typeset -p s; cd d1; alias >../up2%; s=$?; typeset -p s; cd .."),
     ("chdirup", "cd d1/dd; cd -P ..; typeset -p PWD; cd .."),
-    ("forkcwd", "cd d1; (alias >sub%); y=$(for i in *; do typeset -p i; done); typeset -p y; cd .."),
-    ("forkcwd", "cd d2; x%=q; typeset -p x% | { read -r l; typeset -p l >pp%; }; cd .."),
-    ("forkumask", "umask 027; (alias >su%); alias | alias >sv%; umask 644"),
-    ("forkrlimit", "ulimit -n 7; (alias 8<f1); s=$?; typeset -p s"),
+    ("clean", "cd d1; (alias >sub%); y=$(for i in *; do typeset -p i; done); typeset -p y; cd .."),
+    ("clean", "cd d2; x%=q; typeset -p x% | { read -r l; typeset -p l >pp%; }; cd .."),
+    ("clean", "umask 027; (alias >su%); alias | alias >sv%; umask 644"),
+    ("clean", "ulimit -n 7; (alias 8<f1); s=$?; typeset -p s"),
     ("emfile", "(ulimit -n 3; exec 5>nf%); s=$?; typeset -p s"),
     ("opendir", "for i in *; do :; done; for i in d1/*; do :; done; alias <&3; s=$?; typeset -p s; alias <&4; s=$?; typeset -p s"),
     ("opendir", "(ulimit -n 5; for i in d1/*; do typeset -p i; done; for i in d1/*; do typeset -p i; done; for i in d1/*; do typeset -p i; done)"),
@@ -1180,8 +1180,8 @@ const FRAGMENTS: [(&str, &str); 62] = [
     ("clean", "(exit 3) & (exit 4) & wait; s=$?; typeset -p s; wait $!; s=$?; typeset -p s"),
     ("clean", "x%=@W; { typeset -p x%; typeset -p x%; } | { read -r a; read -r b; typeset -p a b >pq%; }; while read -r l; do typeset -p l; done <pq%"),
     ("clean", "y=$( (x%=@W; typeset -p x% >cs2%; typeset -p x%) | { read -r l; typeset -p l; } ); typeset -p y"),
-    ("forkumask", "umask @U; x%=$(alias >cu%; umask); typeset -p x%; umask 644"),
-    ("forkcwd", "cd d1/dd; (alias >deep2%; typeset -p PWD >pw%); cd ../.."),
+    ("clean", "umask @U; x%=$(alias >cu%; umask); typeset -p x%; umask 644"),
+    ("clean", "cd d1/dd; (alias >deep2%; typeset -p PWD >pw%); cd ../.."),
 ];
 
 fn gen_script(rng: &mut Rng, allow_known: bool) -> (String, String) {
@@ -1254,7 +1254,7 @@ fn main() {
         }
     }
     let mut rng = Rng::new(opts.seed ^ 0xC19C_19C1);
-    let n_seq = if thorough { 240_000 } else { 2_400 };
+    let n_seq = if thorough { 100_000 } else { 2_400 };
     for i in 0..n_seq {
         let class = if i % 5 < 3 { "clean" } else { CLASSES[1 + (i / 5) % 7] };
         let case = gen_seq(&mut rng, class, thorough);
@@ -1262,7 +1262,7 @@ fn main() {
             run_seq_case(&case);
         }
     }
-    let n_sh = if thorough { 24_000 } else { 300 };
+    let n_sh = if thorough { 12_000 } else { 300 };
     for i in 0..n_sh {
         let (tag, script) = gen_script(&mut rng, i % 4 == 3);
         if mine(&mut index) {
